@@ -40,7 +40,7 @@ CFG = {
                   "documents longer than, as long as and shorter than their capacity (written by a ring of another capacity or by an array list). bslice / bmap Marshal/Unmarshal are one-line delegations to encoding/json and are only exercised by the first harness run (so is the bcache member map "
                   "WITHOUT deadlines there, values wrapped in its Iterator struct); bcache with deadlines, the rebuilt expiry index and the behaviour of the restored cache "
                   "are judged by the second run (c15bc) through C12.Check, whose theorems are C12's (lib/props/C12.py), not repeated in this property's theorem list. Strings that are not valid UTF-8 are outside the codec premise (encoding/json replaces the bytes). "
-                  "String universes (keys, values, elements of every stream) have a hostile share: every C0 control character, DEL, U+0085, U+2028/2029, U+FFFD, U+E0001, U+10FFFF, next to quotes, backslashes, non-ASCII and JSON-looking text; all valid UTF-8 (invalid bytes are replaced by U+FFFD by encoding/json itself, so no JSON encoder can round-trip them: left out). Decoding into a target that already held something is compared by the model tie only (kind 1: the property speaks about fresh targets; C09 judges UnmarshalJSON into a used map or set against its reference) with the same reference (every UnmarshalJSON given such a target clears first; ring, bmap, bcache and array-backed targets with composite elements get none). The bcache run with deadlines (c15bc) has int keys only; string-keyed bcache documents are in the first run. Element and value types: int and string, and (exercised, numbered by deep content so the Coq side is unchanged) struct with omitempty fields, []int, *int and map[string]int for every container class whose element / value type is free (lists, stacks, queues, ring, heaps with a content comparator, tree set, hashset/linkedhashset/hashbidimap for the comparable struct, hash / linked / tree maps, trees, treebidimap, bslice, bmap, bcache): a decoder that recycles its variables or decodes into live elements restores stale / merged / aliased values, which get another number. Observation outside the property (fresh targets): arraylist.UnmarshalJSON (hence array stack / queue, heap, priority queue) and bslice.Unmarshal decode INTO the old elements of a non-fresh target (json.Unmarshal(bytes, &l.elements)): structs and maps are merged with the stale element, pointers are written through; the non-fresh-target run therefore skips those kinds for non-scalar element types.",
+                  "Foreign documents: besides its own output every array-like container except the heaps (which adopt a non-heap array as it is) also decodes documents written by an array list (unsorted, repeated elements) and null, judged against the document (sets: each element once, first-occurrence order for the linked set); rings also documents of another length. String universes (keys, values, elements of every stream) have a hostile share: every C0 control character, DEL, U+0085, U+2028/2029, U+FFFD, U+E0001, U+10FFFF, next to quotes, backslashes, non-ASCII and JSON-looking text; all valid UTF-8 (invalid bytes are replaced by U+FFFD by encoding/json itself, so no JSON encoder can round-trip them: left out). Decoding into a target that already held something is compared by the model tie only (kind 1: the property speaks about fresh targets; C09 judges UnmarshalJSON into a used map or set against its reference) with the same reference (every UnmarshalJSON given such a target clears first; ring, bmap, bcache and array-backed targets with composite elements get none). The bcache run with deadlines (c15bc) has int keys only; string-keyed bcache documents are in the first run. Element and value types: int and string, and (exercised, numbered by deep content so the Coq side is unchanged) struct with omitempty fields, []int, *int and map[string]int for every container class whose element / value type is free (lists, stacks, queues, ring, heaps with a content comparator, tree set, hashset/linkedhashset/hashbidimap for the comparable struct, hash / linked / tree maps, trees, treebidimap, bslice, bmap, bcache): a decoder that recycles its variables or decodes into live elements restores stale / merged / aliased values, which get another number. Observation outside the property (fresh targets): arraylist.UnmarshalJSON (hence array stack / queue, heap, priority queue) and bslice.Unmarshal decode INTO the old elements of a non-fresh target (json.Unmarshal(bytes, &l.elements)): structs and maps are merged with the stale element, pointers are written through; the non-fresh-target run therefore skips those kinds for non-scalar element types.",
     "harness": "c15",
     "runs": [
         {"harness": "c15"},
